@@ -21,7 +21,9 @@ From OV Require Import Proofs.RoundMatmul.
    MatNormLawsRound.v (standard model),
    MatNormLawsFloat.v / MatNormLawsFloatOrd.v (the binary64 instance through Flocq), MatNormLawsStruct.v (structure, every arithmetic).
    All over the real instance [MatNormsR.AR]/[MatNormsR.SAR] of the model functions (the rounding block: the
-   standard-model instance against it).  Axioms: the four standard real-number/classical ones, as for [norms_real].
+   standard-model instance against it; the float block: the binary64 instance against it).  Assumptions: the four
+   standard real-number/classical axioms, as for [norms_real]; the float block adds Coq's primitive float/int constants and their
+   specification axioms (as matvec_backward_error_float above); the four structural theorems and [float_order_laws] need fewer.
    ====================================================================================================== *)
 From Coq Require Import Reals Lra Lia.
 From OV Require Import Base.RoundModel Proofs.RoundFlx.
